@@ -242,7 +242,34 @@ static void* tg_realloc(void* p, size_t n) {
   tg_free(p);
   return q;
 }
-void tg_install(void) { cbor_set_allocs(tg_malloc, tg_realloc, tg_free); }
+void tg_install(void) { cbor_set_allocs(tg_malloc, tg_realloc, tg_free); TG_variant = 0; }
+
+/* Eight interchangeable triples built from two copies of each function (same behaviour, different addresses). A client
+ * may install any of them while no item exists; afterwards only the three functions installed LAST may be called. */
+unsigned TG_variant;
+uint64_t TG_stale_calls;
+static void tg_stale(const char* fn, unsigned bit) {
+  TG_stale_calls++;
+  vh_violation("call-to-allocator-function-not-installed", "the library called the %s of an earlier cbor_set_allocs although a different %s was installed last (triple variant %u, bit %u)", fn, fn, TG_variant, bit);
+}
+static void* tg_malloc_b(size_t n) { if (!(TG_variant & 1)) tg_stale("malloc", 0); return tg_malloc(n); }
+static void* tg_malloc_a(size_t n) { if (TG_variant & 1) tg_stale("malloc", 0); return tg_malloc(n); }
+static void* tg_realloc_b(void* p, size_t n) { if (!(TG_variant & 2)) tg_stale("realloc", 1); return tg_realloc(p, n); }
+static void* tg_realloc_a(void* p, size_t n) { if (TG_variant & 2) tg_stale("realloc", 1); return tg_realloc(p, n); }
+static void tg_free_b(void* p) { if (!(TG_variant & 4)) tg_stale("free", 2); tg_free(p); }
+static void tg_free_a(void* p) { if (TG_variant & 4) tg_stale("free", 2); tg_free(p); }
+void tg_install_variant(unsigned v) {
+  v &= 7;
+  cbor_set_allocs((v & 1) ? tg_malloc_b : tg_malloc_a, (v & 2) ? tg_realloc_b : tg_realloc_a, (v & 4) ? tg_free_b : tg_free_a);
+  TG_variant = v;
+}
+
+/* libc's own malloc with counting pass-through realloc / free: a triple whose first member is the function the library
+ * starts out with */
+uint64_t PT_reallocs, PT_frees;
+static void* pt_realloc(void* p, size_t n) { PT_reallocs++; return realloc(p, n); }
+static void pt_free(void* p) { if (p) PT_frees++; free(p); }
+void pt_install(void) { cbor_set_allocs(malloc, pt_realloc, pt_free); }
 
 /* ======================================================================= arena
  * Two mmap'ed zones with bump allocation and per-size free lists; nothing from
